@@ -103,7 +103,7 @@ def programs(ctx):
 
     # A. import only
     for (m, n) in names:
-        for r in ("GLOBAL", "STACK_GLOBAL"):
+        for r in ("GLOBAL", "STACK_GLOBAL", "GLOBAL-memo-collide", "STACK_GLOBAL-memo-collide", "STACK_GLOBAL-via-memo"):
             g = gen.push_global(r, m, n)
             for fate in ("result", "pop", "pop_mark", "dup", "memo_unused", "memo_reused", "in_list", "in_tuple",
                          "in_dict", "under_result"):
@@ -118,7 +118,7 @@ def programs(ctx):
                                 yield f"import-{r}-{fate}-{fr}", data
     # B. calls
     for (m, n) in names:
-        for r in gen.RESOLVE_OPS:
+        for r in gen.RESOLVE_OPS + ["GLOBAL-memo-collide", "STACK_GLOBAL-memo-collide", "STACK_GLOBAL-via-memo"]:
             for c in gen.CALL_OPS:
                 call = gen.make_call(r, c, m, n, ["1+1", 2])
                 if call is None:
